@@ -1163,6 +1163,43 @@ fn main() {
             }
             println!("after={}", join(&v::table_numbers(&o)));
         }
+        // table_scan_corrupt badblock shape uk:seq:op:vv ... : a forward scan over a table one of whose data blocks is damaged
+        "table_scan_corrupt" => {
+            let bad = num(a[1]) as usize;
+            let o = match build_table(a[2], &a[3..]) {
+                Some(o) => o,
+                None => {
+                    println!("result=build-failed");
+                    return;
+                }
+            };
+            let handles = v::table_block_handles(&o).expect("handles");
+            let fsys = o.filesystem_provider();
+            let tpath = v::table_path(&o, 1);
+            let f = fsys.open_file(&tpath).unwrap();
+            let len = f.len().unwrap() as usize;
+            let mut bytes = vec![0u8; len];
+            f.read_from(&mut bytes, 0).unwrap();
+            let (off, size) = handles[bad];
+            bytes[(off + size / 2) as usize] ^= 0x40;
+            {
+                let mut w = fsys.create_file(&tpath, false).unwrap();
+                w.append(&bytes).unwrap();
+            }
+            let total = a.len() - 3;
+            let mut ops = vec!["first"];
+            for _ in 0..total {
+                ops.push("next");
+            }
+            match v::table_iter_cursor(&o, &ops, (b"", 0)) {
+                Some(c) => {
+                    println!("total={}", total);
+                    println!("seen={}", c.iter().filter(|x| x.is_some()).count());
+                    println!("steps={}", c.len());
+                }
+                None => println!("result=open-failed"),
+            }
+        }
         "vs_recover" => {
             // a database is created, written and closed; a fresh version set recovers from its files
             use raindb::WriteOptions;
